@@ -402,6 +402,9 @@ pub struct TransactionBuilder {
     pub(crate) validity_start_interval: Option<SlotBigNum>,
     pub(crate) mint: Option<MintBuilder>,
     pub(crate) script_data_hash: Option<ScriptDataHash>,
+    // the cost models `calc_script_data_hash` was called with: the hash is derived again from them when
+    // the body is built, so that items added after the call (which shift redeemer indices) are covered
+    pub(crate) script_data_cost_models: Option<Costmdls>,
     pub(crate) required_signers: Ed25519KeyHashes,
     pub(crate) collateral_return: Option<TransactionOutput>,
     pub(crate) total_collateral: Option<Coin>,
@@ -1606,6 +1609,7 @@ impl TransactionBuilder {
             validity_start_interval: None,
             mint: None,
             script_data_hash: None,
+            script_data_cost_models: None,
             required_signers: Ed25519KeyHashes::new(),
             collateral_return: None,
             total_collateral: None,
@@ -2281,6 +2285,15 @@ impl TransactionBuilder {
     /// and will assert and require for a corresponding cost-model to be present in the passed map.
     /// Only the cost-models for the present language versions will be used in the hash calculation.
     pub fn calc_script_data_hash(&mut self, cost_models: &Costmdls) -> Result<(), JsError> {
+        self.script_data_hash = self.script_data_hash_for(cost_models)?;
+        self.script_data_cost_models = Some(cost_models.clone());
+        Ok(())
+    }
+
+    fn script_data_hash_for(
+        &self,
+        cost_models: &Costmdls,
+    ) -> Result<Option<ScriptDataHash>, JsError> {
         let mut used_langs = BTreeSet::new();
         let mut retained_cost_models = Costmdls::new();
         let mut plutus_witnesses = PlutusWitnesses::new();
@@ -2352,23 +2365,24 @@ impl TransactionBuilder {
         }
 
         if datums.is_some() || redeemers.len() > 0 || retained_cost_models.len() > 0 {
-            self.script_data_hash =
-                Some(hash_script_data(&redeemers, &retained_cost_models, datums));
+            Ok(Some(hash_script_data(&redeemers, &retained_cost_models, datums)))
+        } else {
+            Ok(None)
         }
-
-        Ok(())
     }
 
     /// Sets the specified hash value.
     /// Alternatively you can use `.calc_script_data_hash` to calculate the hash automatically.
     /// Or use `.remove_script_data_hash` to delete the previously set value
     pub fn set_script_data_hash(&mut self, hash: &ScriptDataHash) {
+        self.script_data_cost_models = None;
         self.script_data_hash = Some(hash.clone());
     }
 
     /// Deletes any previously set plutus data hash value.
     /// Use `.set_script_data_hash` or `.calc_script_data_hash` to set it.
     pub fn remove_script_data_hash(&mut self) {
+        self.script_data_cost_models = None;
         self.script_data_hash = None;
     }
 
@@ -2397,7 +2411,10 @@ impl TransactionBuilder {
             mint: self.mint.as_ref()
                 .map(|x| x.build())
                 .transpose()?,
-            script_data_hash: self.script_data_hash.clone(),
+            script_data_hash: match &self.script_data_cost_models {
+                Some(cost_models) => self.script_data_hash_for(cost_models)?,
+                None => self.script_data_hash.clone(),
+            },
             collateral: self.collateral.inputs_option(),
             required_signers: self.required_signers.to_option(),
             network_id: None,
